@@ -1,7 +1,8 @@
 """C21 — strided-interval transfer functions are sound.
 prove (Lean, all widths) -> correspondence (Lean model vs real code, exact tuples) -> oracle on the real code
 (member enumeration; exhaustive at small widths, boundary-biased samples at 5..64 bits) -> name stream
-(lib/vsa_names.py: results compared with their own operands, f(x) cmp x, operands correlated through the shared object)."""
+(lib/vsa_names.py: results compared with their own operands, f(x) cmp x, operands correlated through the shared object)
+-> sequence stream (lib/vsa_names.py: query x, derive from x, query the derived object and x again - hidden per-object state)."""
 import logging
 
 from lib import vsa
@@ -76,13 +77,23 @@ def gen_cases(ctx):
 
 def run(ctx):
     logging.disable(logging.CRITICAL)
+    import time
+    t0 = time.time()
     vc.run_family(ctx, PROP, gen_cases(ctx), THEOREMS, TESTS)
+    t1 = time.time()
     # the name / identity dimension: y = f(x, ..) derived from ONE named interval x, then y cmp x for all ten comparisons
     vn.run_stream(ctx, PROP)
+    t2 = time.time()
+    # hidden per-object state: query x, derive from x (every unary operation / width change), query the derived object and x again
+    vn.run_seq_stream(ctx, PROP)
+    ctx.cov["seconds_by_stage"] = {"prove+correspondence+oracle": round(t1 - t0, 1), "name_stream": round(t2 - t1, 1),
+                                   "sequence_stream": round(time.time() - t2, 1)}
 
 
 def replay(ctx, obj):
     logging.disable(logging.CRITICAL)
     if obj["replay"].get("name_case"):
         return vn.replay_name_case(ctx, PROP, obj)
+    if obj["replay"].get("seq_case"):
+        return vn.replay_seq_case(ctx, PROP, obj)
     return vc.replay_case(ctx, PROP, obj)
